@@ -22,7 +22,9 @@ from harness import c06, c15
 
 ID = 'C14'
 T = es.T
-ACTIONS = ['parse', 'execute', 'register_function', 'register_prefix', 'register_infix', 'register_postfix', 'lock_ctx', 'execute_self']
+ACTIONS = ['parse', 'execute', 'register_function', 'register_prefix', 'register_infix', 'register_postfix', 'lock_ctx', 'execute_self', 'set_var']
+# set_var: the handler binds x = 41 in the very context it is being evaluated in (through its shared handle)
+FORTY_ONE = api.V_num(41, 0)
 # execute_self: the handler evaluates a program that invokes the same handler again (two levels deep)
 SELF_PROGRAMS = {'gf': 'gf(1)', '+++': '+++ 1', '---': '1 ---', 'hi': '1 hi 2'}
 SEVEN = api.V_num(7, 0)
@@ -57,6 +59,11 @@ def templates(tier):
     add('compound-target-fn', 'g1 += 10 ; g1', {'g1': 1})
     add('assign-chain-target-fn', 'x = g1 += 1 ; x', {'g1': 1})
     add('setter-op', 'g1 becomes 1 ; g1', {'g1': 1})
+    # the right side of an assignment runs a handler while the target's old value has been read already
+    add('compound-rhs-handler', 'x = 1 ; x += f1 ( ) ; x', {'f1': 1})
+    add('compound-rhs-bare', 'x = 1 ; x *= g1 ; x', {'g1': 1})
+    add('assign-rhs-handler', 'x = 1 ; x = x + f1 ( ) ; x', {'f1': 1})
+    add('setter-rhs-handler', 'x = 1 ; x becomes gf ( 2 ) ; x', {})
     return out
 
 
@@ -94,6 +101,8 @@ def make_reenter(action, depth2):
                     es.NESTED['d'] -= 1
                 if r.name != 'Ok':
                     raise ModelError('re-entrant execute of the same handler failed')
+        elif action == 'set_var':
+            it_.call('context::Context::set_variable', [Ref(ctx_cell, ()), mkstr('x'), FORTY_ONE])
         elif action == 'lock_ctx':
             arc = ctx_cell.v.f[0]
             g = models.mutex_lock(it_, [Ref(arc.cell, ())], 'std::sync::Mutex::<..>::lock')
@@ -101,6 +110,12 @@ def make_reenter(action, depth2):
             _ = len(rd(Ref(guard.ref.cell, guard.ref.path + (('mx',),))).items)
             it_.release_guard(guard, False)
     return act
+
+
+def ref_reenter(action):
+    if action != 'set_var':
+        return None
+    return lambda env, name: env.set_var('x', FORTY_ONE)
 
 
 def harness(it, px, params):
@@ -112,7 +127,7 @@ def harness(it, px, params):
     px.notes.append(tid + '/' + action)
     frets = {nm: SEVEN for nm in fspecs}
     res = es.run_template(it, px, toks, {}, frets, reenter=make_reenter(action, False), use_globals=True, const_ret=SEVEN,
-                          followup=c15.followup)
+                          followup=c15.followup, ref_reenter=ref_reenter(action))
     rec = {'tpl': tid, 'text': res['text'], 'action': action, 'outcome': res['got'].kind, 'want': res['want_kind'], 'log': res['log_m']}
     px.cover('tpl-' + tid)
     px.cover('action-' + action)
@@ -156,6 +171,8 @@ def concrete_reference(text, witness):
         def h(*args):
             if log_it:
                 box['e'].log.append(name)
+            if witness['action'] == 'set_var':
+                box['e'].set_var('x', FORTY_ONE)
             return SEVEN
         return h
     env = re_.Env(dict([(n, ('func', wrap(n))) for n in witness['funcs']]))
@@ -190,7 +207,7 @@ def run(ctx):
     eng = ctx.engine('dev')
     recs, summ = ex.explore(eng, harness, params, prepare=prepare)
     res = c06.judge(ctx, 'C14', tpls, recs, summ, scenario, concrete_reference, lambda a, b, ref: None, native=False,
-                    extra_outside=['re-entrant nesting deeper than one level', 'actions other than the seven listed'])
+                    extra_outside=['re-entrant nesting deeper than one level', 'actions other than the nine listed'])
     res['findings'] = []
     groups = {}
     for r in recs:
